@@ -220,7 +220,7 @@ def typed_layer(ctx, n_pkgs, n_streams, max_cuts):
 
 
 def run(ctx):
-    ctx.build_repo(need_hook=False)
+    ctx.build_repo(need_hook=True)
     ok, failing, log = ctx.coq_props("C16")
     ctx.coverage["trusted_base"] = TRUSTED
     ctx.coverage["rule"] = ("reader scripts (byte, varint32/64, fixed 1/2/4/8, raw bytes) with edge integers, encoded, cut at "
